@@ -60,7 +60,16 @@ type verdict struct {
 }
 
 // exec applies one op to buffer and model and compares; returns a verdict on the first difference.
-func exec(prop string, b *packetio.Buffer, m *model, o op, i int, r *res.Result) *verdict {
+func exec(prop string, b *packetio.Buffer, m *model, o op, i int, r *res.Result) (v *verdict) {
+	defer func() {
+		if p := recover(); p != nil {
+			v = &verdict{"panic", fmt.Sprintf("op %d (%s %d): the buffer panicked: %v", i, o.K, o.N, p), i}
+		}
+	}()
+	return exec1(prop, b, m, o, i, r)
+}
+
+func exec1(prop string, b *packetio.Buffer, m *model, o op, i int, r *res.Result) *verdict {
 	switch o.K {
 	case "lc":
 		b.SetLimitCount(o.N)
